@@ -243,6 +243,14 @@ func (ctx *Context) fixStackMerge(pos []int) {
 			in[j] -= delta
 			j++
 		}
+		// Merged glyphs after the last input position still shorten the
+		// range covered by this action.
+		for i < len(pos) {
+			if i > 0 {
+				delta++
+			}
+			i++
+		}
 
 		// We need to decide whether or not to add the new glyphs to the input
 		// glyph sequence of this action.  The behaviour is not specified in
